@@ -92,6 +92,12 @@ func calleeFunc(info *types.Info, call *ast.CallExpr) *types.Func {
 		if fn, ok := info.Uses[f].(*types.Func); ok {
 			return fn
 		}
+		// a local that holds one method value or function for its whole life (mul := x.Mul; mul(a, b, c))
+		if v, ok := info.Uses[f].(*types.Var); ok {
+			if fn := localFnVals[v]; fn != nil {
+				return fn
+			}
+		}
 	case *ast.SelectorExpr:
 		if sel := info.Selections[f]; sel != nil {
 			if fn, ok := sel.Obj().(*types.Func); ok {
@@ -351,4 +357,69 @@ func forwardingCall(info *types.Info, fd *ast.FuncDecl) (*ast.CallExpr, []ast.Ex
 		}
 	}
 	return call, args
+}
+
+// localFnVals: locals defined exactly once, by a method value or a function name (program-wide, filled before the rules
+// run): a call through such a local is a static call.
+var localFnVals = map[*types.Var]*types.Func{}
+
+func init() {
+	core.PreRun = append(core.PreRun, func(p *core.Program) {
+		fill := func(pk *packages.Package) {
+			info := pk.TypesInfo
+			count := map[*types.Var]int{}
+			target := map[*types.Var]*types.Func{}
+			for _, file := range pk.Syntax {
+				ast.Inspect(file, func(n ast.Node) bool {
+					as, ok := n.(*ast.AssignStmt)
+					if !ok {
+						return true
+					}
+					for i, l := range as.Lhs {
+						id, ok := l.(*ast.Ident)
+						if !ok {
+							continue
+						}
+						v, _ := info.Defs[id].(*types.Var)
+						if v == nil {
+							v, _ = info.Uses[id].(*types.Var)
+						}
+						if v == nil {
+							continue
+						}
+						if _, isFn := v.Type().Underlying().(*types.Signature); !isFn {
+							continue
+						}
+						count[v]++
+						if len(as.Lhs) != len(as.Rhs) {
+							continue
+						}
+						switch r := unparen(as.Rhs[i]).(type) {
+						case *ast.SelectorExpr:
+							if sel := info.Selections[r]; sel != nil && sel.Kind() == types.MethodVal {
+								if fn, ok := sel.Obj().(*types.Func); ok {
+									target[v] = fn
+								}
+							} else if fn, ok := info.Uses[r.Sel].(*types.Func); ok {
+								target[v] = fn
+							}
+						case *ast.Ident:
+							if fn, ok := info.Uses[r].(*types.Func); ok {
+								target[v] = fn
+							}
+						}
+					}
+					return true
+				})
+			}
+			for v, n := range count {
+				if n == 1 && target[v] != nil && v.Parent() != nil && v.Parent() != pk.Types.Scope() {
+					localFnVals[v] = target[v]
+				}
+			}
+		}
+		for _, pk := range p.Pkgs {
+			fill(pk)
+		}
+	})
 }
